@@ -95,4 +95,43 @@ theorem runFrom_U (cfg : Cfg) (suf pre : List Block) (st : State) (evs : List Ev
 theorem run_U (cfg : Cfg) (chain : List Block) (hv : Valid.validChain chain = true) : Within U (run cfg chain) :=
   runFrom_U cfg chain [] {} [] rfl (by simpa using hv)
 
+/-- what is left of C16 for a configuration: the sat / address / inscription pass does not panic on
+the next block of a valid chain, from the state reached by indexing the blocks before it -/
+def UtxoPassOk (cfg : Cfg) (chain : List Block) : Prop :=
+  ∀ pre b suf st evs, chain = pre ++ b :: suf → run cfg pre = .ok (st, evs) →
+    ∀ s, indexUtxoEntries cfg st b ≠ .panic s
+
+/-- the combination lemma: full C16 for `cfg` follows from `UtxoPassOk cfg chain` -/
+theorem run_no_failure_of_utxoPassOk (cfg : Cfg) (chain : List Block) (hv : Valid.validChain chain = true)
+    (hu : UtxoPassOk cfg chain) : (∀ s, run cfg chain ≠ .panic s) ∧ (∀ e, run cfg chain ≠ .err e) := by
+  refine ⟨fun s hp => ?_, fun _ => (run_U cfg chain hv).not_err⟩
+  obtain ⟨pre, b, post, st, evs, hsplit, hpre, hpanic⟩ := RuneLift.runFrom_first_panic cfg chain {} s hp
+  have hv1 : Valid.validChain ((pre ++ [b]) ++ post) = true := by simpa [hsplit] using hv
+  have hlot : RuneLift.LotChainOK (pre ++ [b]) := validChain_lotChainOK _ (validChain_prefix _ _ hv1)
+  have hsafe : ∀ tx ∈ b.txs, RuneSafe b.height tx := validChain_runeSafe chain hv b (by simp [hsplit])
+  have hno := hu pre b post st evs hsplit hpre
+  -- the panic of `applyBlock` is a panic of one of its two passes
+  unfold applyBlock at hpanic
+  simp only [] at hpanic
+  split at hpanic
+  · rename_i s' heq
+    split at heq
+    · exact hno s' heq
+    · cases heq
+  · cases hpanic
+  · rename_i st1 ev1 heq
+    have hf : Runemint.RuneFrame st st1 := by
+      split at heq
+      · exact RuneLift.indexUtxoEntries_frame cfg st b st1 ev1 heq
+      · simp only [Outcome.ok.injEq, Prod.mk.injEq] at heq
+        rw [← heq.1]; exact RuneLift.frame_refl _
+    obtain ⟨r, hr⟩ := RuneLift.rune_pass_ok cfg pre st evs hpre b hlot hsafe st1 hf
+    split at hpanic
+    · rename_i heq2
+      split at heq2
+      · rw [hr] at heq2; cases heq2
+      · cases heq2
+    · cases hpanic
+    · cases hpanic
+
 end Ord.Index
